@@ -175,7 +175,7 @@ def spelling_violation(res, s, tie):
         return False
     out = impl_norm(s)
     bad = out[0] == 'err' or not out[1][1] or float(out[1][0]) != want
-    if bad and not c09_oracle.cls_e0(s):
+    if bad:
         res.violation('impl-violation',
                       f'normalize_float({s!r}) = {out} does not denote '
                       f'{want}', {'input': {'spelling': s}, 'expected': want,
@@ -192,7 +192,7 @@ def tie_norm(res, tier, rng):
     suffixes = list(words_upto(tail))
     cases, meta = [], []
     short = sum(hash_case(w) for w in words_upto(1)) & MASK
-    cases.append(cpair(cstr(''), '1%nat', f'{short}%uint63'))
+    cases.append(cpair(cstr(''), '1%nat', f'(Uint63.of_Z {short}%Z)'))
     meta.append(('', 1))
     n_strings = 9
     for a in ALPHABET:
@@ -202,7 +202,7 @@ def tie_norm(res, tier, rng):
             for w in suffixes:
                 total += hash_case(prefix + w)
             cases.append(cpair(cstr(prefix), f'{tail}%nat',
-                               f'{total & MASK}%uint63'))
+                               f'(Uint63.of_Z {total & MASK}%Z)'))
             meta.append((prefix, tail))
             n_strings += len(suffixes)
     res.count('norm:exhaustive-strings', n_strings)
@@ -291,18 +291,9 @@ def sweep_spellings(res, tier, rng):
                       + ('-wild' if wild else ''))
             out = impl_norm(text)
             outs[text] = out
-            if c09_oracle.cls_e0(text):
-                if out[0] == 'ok' and not out[1][1]:
-                    res.violation('impl-violation',
-                                  f'normalize_float({text!r}) = {out[1][0]!r} '
-                                  'is not a number',
-                                  {'input': {'spelling': text}},
-                                  cls='normalize_float_e0', found_input=True)
-                continue
             spelling_violation(res, text, 'sweep:spellings')
         for (ta, pa, _), (tb, pb, _) in itertools.combinations(spl, 2):
-            if outs[ta] == outs[tb] or c09_oracle.cls_e0(ta) \
-                    or c09_oracle.cls_e0(tb):
+            if outs[ta] == outs[tb]:
                 continue
             cls = c09_oracle.classify_split([ta, tb])
             if c09_gen.in_guard(number, pa, pb):
@@ -709,7 +700,8 @@ def tie_pipeline(res, tier, rng, real):
     from t4_geom_convert.main import parse_lattice
     cases, meta = [], []
     for deck_text, _vols, cells_real, _t4, args in real:
-        lattice_opts = [a for a in args if a != '--lattice']
+        lattice_opts = [args[i + 1] for i, a in enumerate(args)
+                        if a == '--lattice']
         with impl.mip_parser(deck_text) as parser:
             parsed, _ = ParseMCNPCell(parser, None,
                                       parse_lattice(lattice_opts)).parse()
@@ -772,7 +764,7 @@ def witnesses(res):
                       'densities -1.0 and -1.00 of material 1 give '
                       f'compositions {names}',
                       {'input': {'deck': text}, 'observed': names},
-                      cls='density_all_zero_fraction', found_input=True)
+                      found_input=True)       # repaired in /repo (6d1467b)
     # zeros padded before an exponent are never removed
     text = witness_deck([('1', '-1.5e-3'), ('1', '-1.50e-3')])
     conv = impl.convert(text)
@@ -800,8 +792,8 @@ def witnesses(res):
                       'density 4.0e0: ' + (f'{conv.exc}: {conv.msg[:120]}'
                                            if not conv.ok else
                                            f'GEOMCOMP {t4.geomcomp}'),
-                      {'input': {'deck': text}}, cls='normalize_float_e0',
-                      found_input=True)
+                      {'input': {'deck': text}},
+                      found_input=True)       # repaired in /repo (6d1467b)
     # DESIGN §8 #16
     text = witness_deck([('01', '-1.0')])
     conv = impl.convert(text)
@@ -821,16 +813,6 @@ def witnesses(res):
 # ---------------------------------------------------------------------------
 # sweep
 # ---------------------------------------------------------------------------
-
-def failing_class(deck, conv):
-    '''Class of a conversion that stops: only the e0 spelling is known.'''
-    if conv.exc == 'ValueError' and 'could not convert string to float' in \
-            conv.msg:
-        m = re.search(r"float: '([^']*)'", conv.msg)
-        if m and re.search(r'[e+-]$', m.group(1)):
-            return 'normalize_float_e0'
-    return None
-
 
 def sweep_decks(res, tier, rng):
     n_decks = 90 if tier == 'quick' else 900
@@ -852,11 +834,10 @@ def sweep_decks(res, tier, rng):
             res.count('deck:' + feat)
         res.count('deck:wild' if wild else 'deck:in-guard')
         if not conv.ok:
-            cls = failing_class(deck, conv) if wild else None
             res.violation('impl-violation',
                           f'generated deck rejected: {conv.exc}: '
                           f'{conv.msg[:200]}',
-                          {'input': {'deck': text, 'args': args}}, cls=cls,
+                          {'input': {'deck': text, 'args': args}},
                           found_input=True)
             continue
         t4 = impl.T4File(conv.text)
@@ -914,6 +895,15 @@ def run(res, tier, seed, proofs_ok):
     tie_geomcomp(res, tier, rng, [r[:4] for r in real])
     tie_comp(res, tier, rng, [r[:4] for r in real])
     tie_pipeline(res, tier, rng, real)
+    # a tie that could not be evaluated (coqc error, empty sweep) must not pass
+    # silently: the driver only counts violations
+    if not res.violations or all(v.get('class') for v in res.violations):
+        for name, ok, detail in res.obligations:
+            if not ok and (name.startswith('tie:') or name.startswith('sweep:')):
+                res.violation('correspondence',
+                              f'{name} could not be discharged: {detail[:300]}',
+                              {'theorem_or_correspondence': name,
+                               'detail': detail[:1500]}, found_input=False)
 
 
 def replay(path):
